@@ -202,6 +202,34 @@ def quote_name_if_needed(name: str) -> str:
     return f"`{name}`"
 
 
+def expression_level(expression) -> int:
+    """表达式最外层运算符的优先级层级：数值越小结合越紧密，元素表达式（字面值、列名、函数、CASE、子查询等）为 0"""
+    # pylint: disable=R0911
+    if isinstance(expression, ASTUnaryExpression):
+        return 2
+    if isinstance(expression, ASTComputeExpression):
+        return expression.operator.enum.level  # 3 ~ 8
+    if isinstance(expression, (ASTOperatorExpressionBase, ASTBetweenExpression, ASTExistsExpression)):
+        return 9
+    if isinstance(expression, ASTOperatorConditionExpression):
+        return 10
+    if isinstance(expression, ASTLogicalNotExpression):
+        return 11
+    if isinstance(expression, ASTLogicalAndExpression):
+        return 12
+    if isinstance(expression, ASTLogicalXorExpression):
+        return 13
+    if isinstance(expression, ASTLogicalOrExpression):
+        return 14
+    return 0
+
+
+def source_with_parenthesis(expression, sql_type: SQLType, max_level: int) -> str:
+    """返回表达式的源码；如果表达式的优先级层级高于当前位置允许的最高层级 max_level，则添加括号以保持语法树的结构"""
+    source = expression.source(sql_type)
+    return f"({source})" if expression_level(expression) > max_level else source
+
+
 # ---------------------------------------- 抽象基类 ----------------------------------------
 
 
@@ -419,8 +447,9 @@ class ASTBinaryExpressionBase(ASTExpressionBase):
 
     def source(self, sql_type: SQLType = SQLType.DEFAULT) -> str:
         """返回语法节点的 SQL 源码"""
-        return (f"{self.before_value.source(sql_type)} {self.operator.source(sql_type)} "
-                f"{self.after_value.source(sql_type)}")
+        level = expression_level(self)  # 左结合：左侧允许同层级，右侧必须更低层级
+        return (f"{source_with_parenthesis(self.before_value, sql_type, level)} {self.operator.source(sql_type)} "
+                f"{source_with_parenthesis(self.after_value, sql_type, level - 1)}")
 
 
 @dataclasses.dataclass(slots=True, frozen=True, eq=True)
@@ -533,7 +562,7 @@ class ASTCastFunctionExpression(ASTFunctionExpressionBase):
     def source(self, sql_type: SQLType = SQLType.DEFAULT) -> str:
         """返回语法节点的 SQL 源码"""
         return (f"{self.name.source()}"
-                f"({self.column_expression.source(sql_type)} AS {self.cast_type.source(sql_type)})")
+                f"({source_with_parenthesis(self.column_expression, sql_type, 8)} AS {self.cast_type.source(sql_type)})")
 
 
 @dataclasses.dataclass(slots=True, frozen=True, eq=True)
@@ -547,8 +576,8 @@ class ASTExtractFunctionExpression(ASTFunctionExpressionBase):
 
     def source(self, sql_type: SQLType = SQLType.DEFAULT) -> str:
         """返回语法节点的 SQL 源码"""
-        return (f"{self.name.source()}({self.extract_name.source(sql_type)} "
-                f"FROM {self.column_expression.source(sql_type)})")
+        return (f"{self.name.source()}({source_with_parenthesis(self.extract_name, sql_type, 8)} "
+                f"FROM {source_with_parenthesis(self.column_expression, sql_type, 8)})")
 
 
 @dataclasses.dataclass(slots=True, frozen=True, eq=True)
@@ -605,7 +634,8 @@ class ASTWindowExpression(ASTExpressionBase):
         result = f"{self.window_function.source(sql_type)} OVER ("
         parenthesis = []
         if len(self.partition_by_columns) > 0:
-            partition_by_str = ", ".join([column.source(sql_type) for column in self.partition_by_columns])
+            partition_by_str = ", ".join([source_with_parenthesis(column, sql_type, 8)
+                                          for column in self.partition_by_columns])
             parenthesis.append(f"PARTITION BY {partition_by_str}")
         if len(self.order_by_columns) > 0:
             order_by_str = ", ".join([column.source(sql_type) for column in self.order_by_columns])
@@ -708,7 +738,7 @@ class ASTSubValueExpression(ASTExpressionBase):
 
     def source(self, sql_type: SQLType = SQLType.DEFAULT) -> str:
         """返回语法节点的 SQL 源码"""
-        values_str = ", ".join(value.source(sql_type) for value in self.values)
+        values_str = ", ".join(source_with_parenthesis(value, sql_type, 8) for value in self.values)
         return f"({values_str})"
 
 
@@ -723,7 +753,7 @@ class ASTIndexExpression(ASTExpressionBase):
         """返回语法节点的 SQL 源码"""
         if sql_type != SQLType.HIVE:
             raise NotSupportError(f"数组下标不支持SQL类型:{sql_type}")
-        return f"{self.array.source(sql_type)}[{self.idx.source(sql_type)}]"
+        return f"{self.array.source(sql_type)}[{source_with_parenthesis(self.idx, sql_type, 8)}]"
 
 
 @dataclasses.dataclass(slots=True, frozen=True, eq=True)
@@ -739,7 +769,7 @@ class ASTUnaryExpression(ASTExpressionBase):
     def source(self, sql_type: SQLType = SQLType.DEFAULT) -> str:
         """返回语法节点的 SQL 源码"""
         operator_str = self.operator.source(sql_type=sql_type)
-        expression_str = self.expression.source(sql_type=sql_type)
+        expression_str = source_with_parenthesis(self.expression, sql_type, 2)
         if operator_str == "-" and expression_str.startswith("-"):
             return f"{operator_str} {expression_str}"  # 避免将两个连续的减号输出为单行注释标记 --
         return f"{operator_str}{expression_str}"
@@ -768,7 +798,8 @@ class ASTIsExpression(ASTOperatorExpressionBase):
     def source(self, sql_type: SQLType = SQLType.DEFAULT) -> str:
         """返回语法节点的 SQL 源码"""
         keyword = "IS NOT" if self.is_not else "IS"
-        return f"{self.before_value.source(sql_type)} {keyword} {self.after_value.source(sql_type)}"
+        return (f"{source_with_parenthesis(self.before_value, sql_type, 9)} {keyword} "
+                f"{source_with_parenthesis(self.after_value, sql_type, 8)}")
 
 
 @dataclasses.dataclass(slots=True, frozen=True, eq=True)
@@ -778,7 +809,8 @@ class ASTInExpression(ASTOperatorExpressionBase):
     def source(self, sql_type: SQLType = SQLType.DEFAULT) -> str:
         """返回语法节点的 SQL 源码"""
         keyword = "NOT IN " if self.is_not else "IN"
-        return f"{self.before_value.source(sql_type)} {keyword} {self.after_value.source(sql_type)}"
+        return (f"{source_with_parenthesis(self.before_value, sql_type, 9)} {keyword} "
+                f"{source_with_parenthesis(self.after_value, sql_type, 8)}")
 
 
 @dataclasses.dataclass(slots=True, frozen=True, eq=True)
@@ -788,7 +820,8 @@ class ASTLikeExpression(ASTOperatorExpressionBase):
     def source(self, sql_type: SQLType = SQLType.DEFAULT) -> str:
         """返回语法节点的 SQL 源码"""
         keyword = "NOT LIKE" if self.is_not else "LIKE"
-        return f"{self.before_value.source(sql_type)} {keyword} {self.after_value.source(sql_type)}"
+        return (f"{source_with_parenthesis(self.before_value, sql_type, 9)} {keyword} "
+                f"{source_with_parenthesis(self.after_value, sql_type, 8)}")
 
 
 @dataclasses.dataclass(slots=True, frozen=True, eq=True)
@@ -798,7 +831,8 @@ class ASTRlikeExpression(ASTOperatorExpressionBase):
     def source(self, sql_type: SQLType = SQLType.DEFAULT) -> str:
         """返回语法节点的 SQL 源码"""
         keyword = "NOT RLIKE" if self.is_not else "RLIKE"
-        return f"{self.before_value.source(sql_type)} {keyword} {self.after_value.source(sql_type)}"
+        return (f"{source_with_parenthesis(self.before_value, sql_type, 9)} {keyword} "
+                f"{source_with_parenthesis(self.after_value, sql_type, 8)}")
 
 
 @dataclasses.dataclass(slots=True, frozen=True, eq=True)
@@ -808,7 +842,8 @@ class ASTRegexpExpression(ASTOperatorExpressionBase):
     def source(self, sql_type: SQLType = SQLType.DEFAULT) -> str:
         """返回语法节点的 SQL 源码"""
         keyword = "NOT REGEXP" if self.is_not else "REGEXP"
-        return f"{self.before_value.source(sql_type)} {keyword} {self.after_value.source(sql_type)}"
+        return (f"{source_with_parenthesis(self.before_value, sql_type, 9)} {keyword} "
+                f"{source_with_parenthesis(self.after_value, sql_type, 8)}")
 
 
 @dataclasses.dataclass(slots=True, frozen=True, eq=True)
@@ -834,8 +869,9 @@ class ASTBetweenExpression(ASTExpressionBase):
     def source(self, sql_type: SQLType = SQLType.DEFAULT) -> str:
         """返回语法节点的 SQL 源码"""
         if_not_str = "NOT " if self.is_not else ""
-        return (f"{self.before_value.source(sql_type)} {if_not_str}"
-                f"BETWEEN {self.from_value.source(sql_type)} AND {self.to_value.source(sql_type)}")
+        return (f"{source_with_parenthesis(self.before_value, sql_type, 9)} {if_not_str}"
+                f"BETWEEN {source_with_parenthesis(self.from_value, sql_type, 8)} "
+                f"AND {source_with_parenthesis(self.to_value, sql_type, 8)}")
 
 
 @dataclasses.dataclass(slots=True, frozen=True, eq=True)
@@ -854,7 +890,7 @@ class ASTLogicalNotExpression(ASTExpressionBase):
 
     def source(self, sql_type: SQLType = SQLType.DEFAULT) -> str:
         """返回语法节点的 SQL 源码"""
-        return f"{self.operator.source(sql_type)} {self.expression.source(sql_type)}"
+        return f"{self.operator.source(sql_type)} {source_with_parenthesis(self.expression, sql_type, 11)}"
 
 
 @dataclasses.dataclass(slots=True, frozen=True, eq=True)
@@ -1027,9 +1063,10 @@ class ASTGroupingSets(ASTBase):
         grouping_str_list = []
         for grouping in self.grouping_list:
             if len(grouping) > 1:
-                grouping_str_list.append("(" + ", ".join(column.source(sql_type) for column in grouping) + ")")
+                grouping_str_list.append(
+                    "(" + ", ".join(source_with_parenthesis(column, sql_type, 8) for column in grouping) + ")")
             else:
-                grouping_str_list.append(grouping[0].source(sql_type))
+                grouping_str_list.append(source_with_parenthesis(grouping[0], sql_type, 8))
         return "GROUPING SETS (" + ", ".join(grouping_str_list) + ")"
 
 
@@ -1044,7 +1081,7 @@ class ASTGroupByClause(ASTBase):
 
     def source(self, sql_type: SQLType = SQLType.DEFAULT) -> str:
         """返回语法节点的 SQL 源码"""
-        columns_str = ", ".join(column.source(sql_type) for column in self.columns)
+        columns_str = ", ".join(source_with_parenthesis(column, sql_type, 8) for column in self.columns)
         grouping_sets_str = f" {self.grouping_sets.source(sql_type)}" if self.grouping_sets is not None else ""
         with_cube_str = " WITH CUBE" if self.with_cube is True else ""
         with_rollup_str = " WITH ROLLUP" if self.with_rollup is True else ""
@@ -1081,9 +1118,10 @@ class ASTOrderByColumn(ASTBase):
         """返回语法节点的 SQL 源码"""
         nulls_first_str = " NULLS FIRST" if self.nulls_first else ""
         nulls_last_str = " NULLS LAST" if self.nulls_last else ""
+        column_str = source_with_parenthesis(self.column, sql_type, 8)
         if self.order.source(sql_type) == "ASC":
-            return f"{self.column.source(sql_type)}{nulls_first_str}{nulls_last_str}"
-        return f"{self.column.source(sql_type)} DESC{nulls_first_str}{nulls_last_str}"
+            return f"{column_str}{nulls_first_str}{nulls_last_str}"
+        return f"{column_str} DESC{nulls_first_str}{nulls_last_str}"
 
 
 @dataclasses.dataclass(slots=True, frozen=True, eq=True)
@@ -1124,7 +1162,7 @@ class ASTDistributeByClause(ASTBase):
 
     def source(self, sql_type: SQLType = SQLType.DEFAULT) -> str:
         """返回语法节点的 SQL 源码"""
-        return "DISTRIBUTE BY " + ", ".join(column.source(sql_type) for column in self.columns)
+        return "DISTRIBUTE BY " + ", ".join(source_with_parenthesis(column, sql_type, 8) for column in self.columns)
 
 
 # ---------------------------------------- CLUSTER BY 子句 ----------------------------------------
@@ -1138,7 +1176,7 @@ class ASTClusterByClause(ASTBase):
 
     def source(self, sql_type: SQLType = SQLType.DEFAULT) -> str:
         """返回语法节点的 SQL 源码"""
-        return "CLUSTER BY " + ", ".join(column.source(sql_type) for column in self.columns)
+        return "CLUSTER BY " + ", ".join(source_with_parenthesis(column, sql_type, 8) for column in self.columns)
 
 
 # ---------------------------------------- LIMIT 子句 ----------------------------------------
@@ -1443,9 +1481,9 @@ class ASTDefineColumnExpression(ASTBase):
         if self.is_auto_increment is True and sql_type == SQLType.MYSQL:
             res += " AUTO_INCREMENT"
         if self.default is not None and sql_type == SQLType.MYSQL:
-            res += f" DEFAULT {self.default.source(sql_type)}"
+            res += f" DEFAULT {source_with_parenthesis(self.default, sql_type, 8)}"
         if self.on_update is not None and sql_type == SQLType.MYSQL:
-            res += f" ON UPDATE {self.on_update.source(sql_type)}"
+            res += f" ON UPDATE {source_with_parenthesis(self.on_update, sql_type, 8)}"
         if self.comment is not None:
             res += f" COMMENT {self.comment}"
         return res
